@@ -137,7 +137,9 @@ def _foreign_bytes(case):
                 # what pyarrow records for a pandas categorical of strings; whether a read can deliver it as such depends
                 # on every chunk of the column being dictionary-encoded throughout
                 vals = {v for rg in plan["row_groups"] for v in rg["data"].get(c["name"], []) if v is not None}
-                pt, nt, cmeta = "categorical", "int8", {"num_categories": max(1, len(vals)), "ordered": False}
+                # (as many categories as the largest dictionary holds, entries no row refers to included)
+                pad = max([((rg.get("chunks") or {}).get(c["name"], {}).get("dict_pad") or {}).get("n", 0) for rg in plan["row_groups"]] or [0])
+                pt, nt, cmeta = "categorical", "int8", {"num_categories": max(1, len(vals) + pad), "ordered": False}
             cols.append({"name": c["name"], "field_name": c["name"], "pandas_type": pt, "numpy_type": nt, "metadata": cmeta})
         n = sum(len(next(iter(rg["data"].values()))) if rg["data"] else 0 for rg in plan["row_groups"])
         idx = [{"kind": "range", "name": None, "start": 0, "stop": n, "step": 1}] if kind == "pandas_range_index" else []
@@ -268,6 +270,34 @@ def run_case(case):
             if got_cat != want_cat:
                 return viol("categories|%s|%s" % (src, optsig), "categories says %r, categorical in the frame: %r" % (sorted(want_cat), sorted(got_cat)),
                             labels=labels)
+        # ---- the handle after a read, and a handle given the reported dtypes: both must answer like a fresh handle
+        try:
+            fresh_pf = fastparquet.ParquetFile(path, pandas_nulls=rd["pandas_nulls"])
+            fresh_dt = dict(fresh_pf.dtypes)
+            fresh = fresh_pf.to_pandas()
+        except Exception as e:
+            fresh = None
+        if fresh is not None:
+            probes_ = [("same_handle_after_a_read", lambda: pf.to_pandas())]
+            if src != "partitioned" or True:
+                probes_.append(("handle_given_the_reported_dtypes",
+                                lambda: fastparquet.ParquetFile(path, pandas_nulls=rd["pandas_nulls"], dtypes=dict(fresh_dt)).to_pandas()))
+            for what, fn in probes_:
+                try:
+                    again = fn()
+                except Exception as e:
+                    return viol("%s|raised|%s|%s" % (what, src, exc_sig(e)),
+                                "a fresh handle reads the file with default options; %s (options of the first read: %s): %s"
+                                % (what, optsig, exc_detail(e)), labels=labels)
+                if [str(c) for c in again.columns] != [str(c) for c in fresh.columns] or len(again) != len(fresh):
+                    return viol("%s|shape|%s" % (what, src), "%s: columns %r x %d rows, a fresh handle gives %r x %d"
+                                % (what, list(again.columns), len(again), list(fresh.columns), len(fresh)), labels=labels)
+                for c in fresh.columns:
+                    a, b = norm_dtype(again[c].dtype), norm_dtype(fresh[c].dtype)
+                    if a != b:
+                        return viol("%s|dtype|%s|%s->%s" % (what, src, _fam(b), _fam(a)),
+                                    "%s (options of the first read: %s): column %r is %s, a fresh handle reads %s" % (what, optsig, c, a, b),
+                                    labels=labels)
         # ---- counts
         if claimed_count != len(out) or info.get("rows") != len(out) or sum(claimed_rg) != len(out):
             return viol("count|%s" % src, "count()=%r info.rows=%r sum(num_rows)=%r, rows read %d" % (claimed_count, info.get("rows"), sum(claimed_rg), len(out)),
